@@ -124,7 +124,7 @@ private:
     bool operator!=(const marked_idx& other) const noexcept { return this->_val != other._val; }
 
   private:
-    static constexpr unsigned bits = 16;
+    static constexpr unsigned bits = 32;
     static constexpr uint64_t val_mask = (static_cast<uint64_t>(1) << bits) - 1;
     uint64_t _val = 0;
   };
